@@ -46,6 +46,14 @@ impl CaseStats {
     }
 }
 
+/// why `CaseCtx::run` returned
+#[derive(PartialEq, Eq, Clone, Copy, Debug)]
+pub enum RunExit {
+    Done,
+    /// a `reopen` line was executed (`ok` already printed); call `run` again with the reopened db
+    Reopen,
+}
+
 pub enum Source {
     Replay(VecDeque<String>),
     Gen(Box<Generator>),
@@ -78,6 +86,8 @@ pub struct CaseCtx {
     in_txn: bool,
     /// reference state when the open transaction started
     ref_at_txn_start: Option<Ref>,
+    /// return from `run` at a `reopen` line (the caller closes and reopens the database)
+    pub exit_on_reopen: bool,
 }
 
 struct Pre {
@@ -141,6 +151,7 @@ impl CaseCtx {
             txn_mutations: 0,
             in_txn: false,
             ref_at_txn_start: None,
+            exit_on_reopen: false,
         }
     }
 
@@ -231,9 +242,17 @@ impl CaseCtx {
 
     // ----- main loop -----------------------------------------------------------------------
 
-    pub fn run<S: StorageData>(&mut self, db: &mut DbImpl<S>) {
+    pub fn run<S: StorageData>(&mut self, db: &mut DbImpl<S>) -> RunExit {
         while let Some(op) = self.next_op(Mode::Top) {
             match op {
+                Op::Reopen => {
+                    self.emit("ok".to_string());
+                    self.snap_cache = None;
+                    self.st.bump("reopen_lines", 1);
+                    if self.exit_on_reopen {
+                        return RunExit::Reopen;
+                    }
+                }
                 Op::Bad(_) | Op::TxnFail | Op::TxnCommit | Op::Case(_) => {
                     self.emit("bad-op".to_string())
                 }
@@ -247,6 +266,7 @@ impl CaseCtx {
             }
         }
         self.final_checks(db);
+        RunExit::Done
     }
 
     fn run_query_top<S: StorageData>(&mut self, db: &mut DbImpl<S>, op: &Op) {
@@ -304,7 +324,9 @@ impl CaseCtx {
                         terminator = Some(true);
                         return Ok(());
                     }
-                    Op::TxnBegin | Op::Bad(_) | Op::Case(_) => self.emit("bad-op".to_string()),
+                    Op::TxnBegin | Op::Bad(_) | Op::Case(_) | Op::Reopen => {
+                        self.emit("bad-op".to_string())
+                    }
                     Op::Dump => {
                         self.st.evaluations += 1;
                         let s = self.fresh_snapshot(t);
@@ -531,7 +553,7 @@ impl CaseCtx {
                     self.st.nontrivial = true;
                 }
             }
-            Prop::C13 => {}
+            Prop::C13 | Prop::C06 => {}
         }
         let aliases = select_all_aliases(r);
         self.refm.set_aliases(&aliases);
@@ -1106,7 +1128,7 @@ impl CaseCtx {
                     self.select_ok(&Op::SelectIndexes, &res);
                 }
             }
-            Prop::C13 => {}
+            Prop::C13 | Prop::C06 => {}
         }
     }
 }
